@@ -40,6 +40,10 @@ impl Big {
     pub fn is_zero(&self) -> bool {
         self.mag.is_empty()
     }
+    /// |self| <= |o|
+    pub fn cmp_abs_le(&self, o: &Big) -> bool {
+        Self::cmp_mag(&self.mag, &o.mag) != std::cmp::Ordering::Greater
+    }
     fn cmp_mag(a: &[u32], b: &[u32]) -> std::cmp::Ordering {
         if a.len() != b.len() {
             return a.len().cmp(&b.len());
